@@ -39,6 +39,16 @@ CLAIMS.update({
  "C13": dict(text="Decides that block boundaries are a function of {0} U {decoded jump targets} only: initial value, sole writer, executed for every Jump operand; a block opens iff the instruction's first offset is in the sorted target list; unconditional append (no empty block, order-preserving partition); jump targets rewritten through the same sorted list.",
    technique="ast rule checking over the decoder's two loops with points-to facts", ref="5 C13"),
 })
+CLAIMS.update({
+ "C03": dict(text="Decides guards, keys and width constants the encoder cannot be right without on hand-built data: gap guard before table compaction and keyed collision check (finite evaluation on model index maps / values), constants table keyed by Constant.__eq__'s key function, exact constant key, operand-width thresholds and unit emission reassembling under the decoder's shift, no Optional line into arithmetic (two known findings on the lnotab path), relaxation-loop shape and agreement of all size computations. Termination/fixed-point correctness of relaxation and the synthesised line table are not decided.",
+   technique="finite-domain evaluation of extracted guards / threshold tables + points-to facts + ast shape rules", ref="5 C03"),
+ "C10": dict(text="Decides ONLY the format constants of the line-table codec per format (merge thresholds = split emissions = CPython's limits over the whole byte domain; split-loop coherence; -128<->None sentinel iff linetable; (unsigned, signed) byte pairing). All arithmetic on tables (items_to_mapping, mapping_to_items, cursor logic, zero-width entries, no-line runs, trailing entries) quantifies over integer sequences and is explicitly NOT decided by static analysis here.",
+   technique="finite-domain evaluation of extracted predicates over the format's value domain", ref="5 C10 and 8"),
+ "C15": dict(text="Decides that nothing on the JSON / normalize paths can depend on the interpreter: closures identical under every version and free of sys/dis/opcode/platform/ctypes and derived constants; no version-conditional module-level definition; no version-dependent builtin applied to data (repr of str fixed; decimal int<->text is a known finding); every import resolves in the stdlib sources of 3.7..3.12 (parsed statically). Cross-library byte identity is not decided.",
+   technique="call/import closure scan with taint of version-derived constants; stdlib source tables", ref="5 C15"),
+ "C16": dict(text="Decides on the console entry point: validation and dispatch range over the declared source options with the same null test; each source variable is used in the role of its option; printed value, JSON value and re-encoded value are one variable defined by from_code / normalize(self); flag polarity by finite evaluation of guards. Exit status and rendered text are not decided.",
+   technique="ast rule checking of the CLI entry point with points-to facts + guard evaluation", ref="5 C16"),
+})
 NA = {}
 props = [json.loads(l) for l in open(os.path.join(HERE, "properties.jsonl"))]
 checks, na = [], []
